@@ -439,7 +439,7 @@ for _pid in ("C11", "C07"):
 # and the deterministic-window family `memconc` runs where a torn call can leave a stored task the property forbids.
 LOCK_RULE = ("`gkh srcfacts -facts lock` re-extracts from the current sources (go/ast) that every method of the in-memory "
              "repository, the hook timer and the cron store takes its mutex first, releases it only by `defer` and never "
-             "explicitly, so that a call is one atomic step - the assumption under which the sequential theorems of this "
+             "explicitly, and calls neither another method of the store nor a callback parameter before it, so that a call is one atomic step - the assumption under which the sequential theorems of this "
              "property hold for concurrent callers (a broken fact is a DIFF: reported, a failing history searched); ")
 
 
@@ -453,7 +453,7 @@ def _with_lockfacts(cfg, memconc=False):
         cfg.setdefault("extra_mon", {})["C10"] = r"."
 
 
-for _p in ("C01", "C02", "C11", "C14"):
+for _p in ("C01", "C02", "C11", "C14", "C15", "C16", "C17"):
     _with_lockfacts(CHECKS[_p])
 _with_lockfacts(CHECKS["C12"], memconc=True)
 
